@@ -17,6 +17,7 @@ class AnalysisError(Exception):
     """The analysis itself is broken (anchor vanished, floor not met, parse error)."""
 
 
+from sa.engine import alpha  # noqa: E402
 DEFAULT_REPO = os.environ.get("SA_REPO", "/repo")
 
 
@@ -105,6 +106,8 @@ class Repo:
                 tree = ast.parse(source, filename=str(path))
             except SyntaxError as exc:
                 raise AnalysisError(f"cannot parse {path}: {exc}") from exc
+            # functions that differ from their recorded reference only in the names of locals get the recorded names back
+            self.alpha_renamed = getattr(self, "alpha_renamed", 0) + alpha.normalise(name, tree)
             mod = Module(
                 name=name,
                 path=path,
@@ -573,7 +576,7 @@ def canonical_by_callee(fn: ast.AST, callee: ast.AST, is_call) -> ast.AST:
     """Rename the locals of `fn` that are passed to `callee` (calls selected by `is_call`) after the parameters
     they feed: rules written against the parameter names then hold however the caller spells its locals.
     Returns `fn` itself when there is nothing to rename or the calls disagree."""
-    cparams = [a.arg for a in [*callee.args.posonlyargs, *callee.args.args] if a.arg not in ("self", "cls")]
+    cparams = [a.arg for a in [*callee.args.posonlyargs, *callee.args.args] if a.arg not in ("self", "cls")] if callee is not None else []
     mapping: dict[str, str] = {}
     for c in own_nodes(fn):
         if not (isinstance(c, ast.Call) and is_call(c)):
@@ -587,3 +590,37 @@ def canonical_by_callee(fn: ast.AST, callee: ast.AST, is_call) -> ast.AST:
     taken = {n.id for n in ast.walk(fn) if isinstance(n, ast.Name)} | {a.arg for a in fn.args.args}
     mapping = {k: v for k, v in mapping.items() if k != v and v not in taken}
     return rename_locals(fn, mapping) if mapping else fn
+
+
+def rename_roles(fn: ast.AST, roles: dict) -> ast.AST:
+    """A linked copy of `fn` whose locals are renamed to the role names of `roles` (role -> finder(fn) returning the
+    local's present name or None). Lets a rule speak about `changed` or `state` whatever the function calls them."""
+    taken = {n.id for n in ast.walk(fn) if isinstance(n, ast.Name)} | {a.arg for a in [*fn.args.posonlyargs, *fn.args.args, *fn.args.kwonlyargs]}
+    mapping = {}
+    for role, finder in roles.items():
+        try:
+            cur = finder(fn)
+        except (StopIteration, AttributeError, IndexError):
+            cur = None
+        if cur and cur != role and role not in taken and cur not in mapping:
+            mapping[cur] = role
+    return rename_locals(fn, mapping) if mapping else fn
+
+
+def assigned_from(fn: ast.AST, pred) -> str | None:
+    """Name of the local that is assigned a value satisfying pred(value node) (first such plain assignment)."""
+    for n in sorted((x for x in own_nodes(fn) if isinstance(x, (ast.Assign, ast.AnnAssign))), key=lambda x: (x.lineno, x.col_offset)):
+        tgt = n.targets[0] if isinstance(n, ast.Assign) and len(n.targets) == 1 else getattr(n, "target", None)
+        if isinstance(tgt, ast.Name) and n.value is not None and pred(n.value):
+            return tgt.id
+    return None
+
+
+def unpacked_from(fn: ast.AST, pred, position: int) -> str | None:
+    """Name bound at `position` of a tuple target whose assigned value satisfies pred."""
+    for n in own_nodes(fn):
+        if isinstance(n, ast.Assign) and len(n.targets) == 1 and isinstance(n.targets[0], (ast.Tuple, ast.List)) and pred(n.value):
+            elts = n.targets[0].elts
+            if position < len(elts) and isinstance(elts[position], ast.Name):
+                return elts[position].id
+    return None
